@@ -1,4 +1,4 @@
-"""C20 — the metrics exporter cannot be wedged by its clients (SRV-1..4), decided on the typed HIR."""
+"""C20 — the metrics exporter cannot be wedged by its clients (SRV-1..5), decided on the typed HIR."""
 from sa import hir
 
 LEVEL = "other"
@@ -11,7 +11,9 @@ EXPLANATION = (
     "I/O error can end the server function; SRV-2 every loop that awaits AsyncReadExt::read binds the count and "
     "has a branch on `== 0` that leaves that loop (EOF cannot spin); SRV-3 that EOF test precedes every back edge "
     "(`continue`) of the read loop, so each iteration consumes input or leaves; SRV-4 wherever a Result decides "
-    "what is written to the connection, every arm (in particular Err) writes a response."
+    "what is written to the connection, every arm (in particular Err) writes a response; SRV-5 in a read loop that "
+    "accumulates into a buffer, the request-complete test scans the whole received prefix (start 0, or the "
+    "pre-increment count minus >= 3), so a header terminator split over two reads is still found."
 )
 NOT_DECIDED = "timing (answer within a deadline), tokio runtime behaviour, errors of the listener socket itself"
 ASSUMPTIONS = ["a read of 0 bytes from tokio AsyncReadExt::read means EOF (or a full destination buffer)",
@@ -129,6 +131,9 @@ def run(ctx):
                       "leaves)", floor=1)
     rep.rule("SRV-4", "where a Result decides what is written to the connection every arm writes a response",
              floor=1)
+    rep.rule("SRV-5", "in a read loop that accumulates into a buffer (`read(&mut buf[acc..])`) every test that ends "
+                      "the loop by inspecting the buffer inspects the whole received prefix (range start 0, or the "
+                      "pre-increment accumulator minus >= 3), so a terminator split over two reads is found", floor=1)
     n_fns = 0
     accept_loops = 0
     for key, (u, h) in sorted(prog.hir.items()):
@@ -194,6 +199,7 @@ def run(ctx):
             inner_ids = {x.get("id") for x in hir.walk(L["body"]) if x.get("k") == "loop"}
             for (R, parents) in reads:
                 check_read_loop(rep, key, L, R, parents, inner_ids)
+                check_prefix_scan(rep, key, L, R)
         # ---------------- SRV-4
         if conns:
             check_srv4(rep, key, body, conns)
@@ -363,6 +369,114 @@ def check_read_loop(rep, key, L, R, parents, inner_ids):
                       "progress" % early, where=early[0])
     else:
         rep.ok("SRV-3", key, construct, detail="no back edge before the EOF test", where=hir.where(R))
+
+
+def _index_on(n, bid):
+    """index nodes (k=index) whose indexed expression is the local `bid` (through & / &mut / parens)"""
+    out = []
+    for x in hir.walk(n, enter_closures=False):
+        if x.get("k") == "index":
+            e = hir.strip_wrappers(x["e"])
+            if e.get("k") == "path" and e.get("res", {}).get("id") == bid:
+                out.append(x)
+    return out
+
+
+def _range_start(i):
+    """('none',) for RangeTo/RangeFull, ('expr', node) for Range/RangeFrom, None if the index is not a range"""
+    i = hir.strip_wrappers(i)
+    if i.get("k") == "struct" and "ops::range::Range" in i.get("path", {}).get("def", ""):
+        for f in i.get("fields", []):
+            if f["name"] == "start":
+                return ("expr", hir.strip_wrappers(f["e"]))
+        return ("none",)
+    if i.get("k") == "path" and "RangeFull" in json_s(i):
+        return ("none",)
+    return None
+
+
+def json_s(n):
+    import json
+    return json.dumps(n)[:400]
+
+
+def check_prefix_scan(rep, key, L, R):
+    e = hir.strip_wrappers(R["e"])
+    args = e.get("args", [])
+    if not args:
+        return
+    dest = hir.strip_wrappers(args[0])
+    if dest.get("k") != "index":
+        return
+    b = hir.strip_wrappers(dest["e"])
+    st = _range_start(dest["i"])
+    if b.get("k") != "path" or "id" not in b.get("res", {}) or st is None or st[0] != "expr" or \
+            st[1].get("k") != "path":
+        return
+    bid, bname = b["res"]["id"], b["res"].get("local", "?")
+    aid, aname = st[1]["res"].get("id"), st[1]["res"].get("local", "?")
+    construct = "accumulating-read-loop(%s[%s..])" % (bname, aname)
+    stmts = L["body"].get("stmts", []) + ([L["body"]["expr"]] if L["body"].get("expr") else [])
+    # statement index of the accumulator update
+    upd = None
+    for idx, s_ in enumerate(stmts):
+        for x in hir.walk(s_, enter_closures=False):
+            if x.get("k") in ("assignop", "assign"):
+                l = hir.strip_wrappers(x.get("l", {}))
+                if l.get("k") == "path" and l.get("res", {}).get("id") == aid and upd is None:
+                    upd = idx
+    # aliases: locals let-bound (in the loop) to expressions that index the buffer
+    alias = {}
+    for idx, s_ in enumerate(stmts):
+        for x in hir.walk(s_, enter_closures=False):
+            if x.get("k") == "let" and x.get("init") is not None:
+                used = hir.locals_used(x["init"], False)
+                ix = [n for n in _index_on(x["init"], bid) if n.get("eid") != dest.get("eid")]
+                for u_ in used:
+                    if u_ in alias:
+                        ix = ix + [n for (n, _) in alias[u_]]
+                if ix:
+                    for _, i_ in hir.pat_bindings(x["pat"]):
+                        alias[i_] = [(n, idx) for n in ix]
+    n_tests = 0
+    for idx, s_ in enumerate(stmts):
+        for x in hir.walk(s_, enter_closures=False):
+            if x.get("k") != "if":
+                continue
+            sites = [(n, idx) for n in _index_on(x["cond"], bid)]
+            for u_ in hir.locals_used(x["cond"], False):
+                sites += alias.get(u_, [])
+            if not sites:
+                continue
+            n_tests += 1
+            for (n, sidx) in sites:
+                rs = _range_start(n["i"])
+                ok, why = False, ""
+                if rs is None:
+                    ok, why = True, "single element"       # not a scan
+                elif rs[0] == "none":
+                    ok, why = True, "range without a start"
+                else:
+                    se = rs[1]
+                    if hir.lit_int(se) == 0:
+                        ok, why = True, "range starts at 0"
+                    elif se.get("k") == "mcall" and se.get("name") == "saturating_sub":
+                        rv = hir.strip_wrappers(se["recv"])
+                        k_ = hir.lit_int(se["args"][0]) if se.get("args") else None
+                        if rv.get("k") == "path" and rv.get("res", {}).get("id") == aid and k_ is not None and \
+                                k_ >= 3 and upd is not None and sidx <= upd:
+                            ok, why = True, "range starts at the pre-increment accumulator minus %d" % k_
+                if ok:
+                    rep.ok("SRV-5", key, construct, detail="test at %s inspects %s: %s" % (hir.where(x), describe(n), why),
+                           where=hir.where(n))
+                else:
+                    rep.violation("SRV-5", key, construct,
+                                  "the loop-ending test at %s inspects only `%s`, not the whole received prefix: a "
+                                  "terminator split across two reads is never found and the connection (and the "
+                                  "single-threaded accept loop) waits forever" % (hir.where(x), describe(n)),
+                                  where=hir.where(n))
+    if n_tests == 0:
+        rep.ok("SRV-5", key, construct, detail="no loop-ending test inspects the buffer contents", where=hir.where(R))
 
 
 def pat_is_zero(p):
